@@ -1760,8 +1760,9 @@ def lt(left: Any, right: Any) -> bool:
     # only when left has a smaller length.
     return len(left) < len(right)
   elif isinstance(left, dict):
-    lkeys = list(left.keys())
-    rkeys = list(right.keys())
+    # Keys are compared in a canonical order, as `eq` ignores insertion order.
+    lkeys = sorted(left.keys(), key=_key_order)
+    rkeys = sorted(right.keys(), key=_key_order)
     min_len = min(len(lkeys), len(rkeys))
     for i in range(min_len):
       kl, kr = lkeys[i], rkeys[i]
@@ -1769,7 +1770,7 @@ def lt(left: Any, right: Any) -> bool:
         if not eq(left[kl], right[kr]):
           return lt(left[kl], right[kr])
       else:
-        return kl < kr
+        return _key_order(kl) < _key_order(kr)
     # `left` and `right` are equal so far, so `left is less than `right`
     # only when left has fewer keys.
     return len(lkeys) < len(rkeys)
@@ -1791,6 +1792,11 @@ def gt(left: Any, right: Any) -> bool:
     True if the left value is symbolically greater than the right value.
   """
   return lt(right, left)   # pylint: disable=arguments-out-of-order
+
+
+def _key_order(key: Any) -> Tuple[str, Any]:
+  """Returns a sorting key for dict keys (which may mix int and str)."""
+  return (_type_order(key), key)
 
 
 def _type_order(value: Any) -> str:
